@@ -31,6 +31,10 @@ func (f *Frame) exec(instr ssa.Instruction, g *Term) {
 		cv := f.get(in.Cond)
 		c, ok := cv.(*Term)
 		if !ok {
+			if p, isP := cv.(Poison); isP && p.dc {
+				// the value only exists on paths that were assumed away (their panic/blocking VC has been raised)
+				break
+			}
 			panic(unsupported(fmt.Sprintf("branch on %T (%v) at %s", cv, cv, e.pos(in.Pos()))))
 		}
 		f.setEdge(f.cur.Index, f.cur.Succs[0].Index, And(g, c))
